@@ -179,7 +179,7 @@ def run(rep):
     T("replay")
     # (c) implementation traces of larger / more varied configurations
     ok = [c for c in cfgs if mh.vcomp._key(c) in okset]
-    traces = record_traces(COMP, ok, 6 if thorough else 1, 700 if thorough else 160, rep.seed, rep)
+    traces = record_traces(COMP, ok, 4 if thorough else 1, 400 if thorough else 160, rep.seed, rep)
     for k, v in trace_stats(COMP, traces).items():
         rep.add("impl_" + k, v)
     T("record")
